@@ -4,7 +4,7 @@ from ..core import Script, hx
 ID = "C20"
 SUITES = ["config"]
 LEAN_MODULES = ["VpnCloud.Proofs.C20"]
-THEOREMS = []
+THEOREMS = ["VpnCloud.Proofs.C20." + n for n in ("rules_match", "scope_ok", "rule_eq_spec", "merge_eq_spec_generic", "merge_eq_spec", "precedence", "lists_accumulate", "netmask_exact", "roundtrip")]
 BATCH = 50
 SEARCH_BUDGET_S = 300
 RULE = ("suite config: per option all presence combinations (absent / in file / on the command line / both) with distinct values — exhaustive per option and pairwise across options, "
